@@ -21,7 +21,10 @@ pub fn run_fronts(kvs: &[Kv], geoms: &[Geom]) -> Result<u64, String> {
         if fr.set_only() && !is_set {
             continue;
         }
-        let b = front::build(fr, DEFAULT_GEOM, kvs)?;
+        let b = match front::build(fr, DEFAULT_GEOM, kvs) {
+            Err(e) if front::is_usage_skip(&e) => continue, // the accepted sequence is not `kvs` (C06's business)
+            r => r?,
+        };
         n += 1;
         if b != reference {
             return Err(format!("{:?} produced different bytes than raw::Builder::insert (lengths {} vs {})", fr, b.len(), reference.len()));
@@ -118,10 +121,13 @@ pub fn run_bulk(n: usize, set: bool) -> Result<u64, String> {
         if (fr.set_only() && !set) || matches!(fr, Front::RawInsert | Front::RawAdd | Front::SetInsert | Front::MapInsert) {
             continue;
         }
-        if n > 200_000 && matches!(fr, Front::SetExtendStreamUnion | Front::MapExtendStreamUnion | Front::RawExtendStreamFst) {
+        if n > 200_000 && matches!(fr, Front::SetExtendStreamUnion | Front::MapExtendStreamUnion | Front::RawExtendStreamFst | Front::RawInsertNoisy | Front::MapInsertNoisy | Front::SetInsertNoisy) {
             continue;
         }
-        let b = front::build(fr, DEFAULT_GEOM, &kvs)?;
+        let b = match front::build(fr, DEFAULT_GEOM, &kvs) {
+            Err(e) if front::is_usage_skip(&e) => continue,
+            r => r?,
+        };
         cnt += 1;
         if b != reference {
             return Err(format!("{:?} over {} items produced different bytes than {} single inserts (lengths {} vs {})", fr, n, n, b.len(), reference.len()));
@@ -510,7 +516,7 @@ pub fn plan(tier: Tier) -> Plan {
     let mut p = Plan::new("C15", "model_checking");
     let thorough = tier.thorough();
     let scan = shared_state_scan();
-    p.rule = "(1) for every accepted sequence of the scope (subsets of U_ab3 with <= 4 keys quick / all thorough, x value patterns; fan-out families) the bytes through all 17 front ends, Builder::memory, a BufWriter, a 3-bytes-per-call sink and Map::from_iter are identical, and the raw front ends agree under the tiny cache geometries 1x1, 2x2, 3x3 (where evictions make the bytes depend on cache behaviour), also when repeated; the same for samples of the shipped corpora (400..10000 keys), where the DEFAULT cache is under pressure; the same for a long-tail family (10..64 keys of 66..502 bytes sharing long tails); (1b) bulk-load size ladder: 1 .. 400004 (thorough 3.3 million) generated items through every bulk entry point (iterators with exact size hints, streams, from_iter) against single inserts; (2) EVERY call-level interleaving (multiset permutations of the API calls new/insert.../finish) of every ordered pair (thorough: also triples of shorter jobs) of 6 builder jobs of different kinds and geometries driven from one thread: each builder must produce the bytes of its solo run (each pair runs on a fresh thread; pairs of jobs with wide nodes included); (3) the whole-scope digest computed twice on one thread, on 8 free-running OS threads and in 4 child processes (std RandomState differs per process) must be equal - a repetition over an uncontrolled seed, reported as such. non-trivial = interleavings with at least one context switch".into();
+    p.rule = "(1) for every accepted sequence of the scope (subsets of U_ab3 with <= 4 keys quick / all thorough, x value patterns; fan-out families) the bytes through all 23 front ends (17 entry points + 6 usage variants: builders kept in use after rejected calls, several bulk calls on a populated builder), Builder::memory, a BufWriter, a 3-bytes-per-call sink and Map::from_iter are identical, and the raw front ends agree under the tiny cache geometries 1x1, 2x2, 3x3 (where evictions make the bytes depend on cache behaviour), also when repeated; the same for samples of the shipped corpora (400..10000 keys), where the DEFAULT cache is under pressure; the same for a long-tail family (10..64 keys of 66..502 bytes sharing long tails); (1b) bulk-load size ladder: 1 .. 400004 (thorough 3.3 million) generated items through every bulk entry point (iterators with exact size hints, streams, from_iter) against single inserts; (2) EVERY call-level interleaving (multiset permutations of the API calls new/insert.../finish) of every ordered pair (thorough: also triples of shorter jobs) of 6 builder jobs of different kinds and geometries driven from one thread: each builder must produce the bytes of its solo run (each pair runs on a fresh thread; pairs of jobs with wide nodes included); (3) the whole-scope digest computed twice on one thread, on 8 free-running OS threads and in 4 child processes (std RandomState differs per process) must be equal - a repetition over an uncontrolled seed, reported as such. non-trivial = interleavings with at least one context switch".into();
     p.assumptions = vec![
         format!("the library has no synchronisation operation and no shared mutable state, so thread interleavings are one Mazurkiewicz trace and a controlled scheduler (loom/shuttle) would have no scheduling point to branch on; scan of /repo/src for static mut/thread_local/lazy_static/OnceCell/OnceLock/Atomic/Mutex/RwLock/RandomState/DefaultHasher/unsafe outside hook items found: {}", if scan.is_empty() { "nothing".to_string() } else { scan.join("; ") }),
         "call-level interleavings of builders on one thread expose any instance-crossing (global or thread-local) state".into(),
